@@ -133,6 +133,13 @@ ssize_t __wrap_write(int fd, const void *buf, size_t n) {
   if (fd >= 0 && fd < K3_MAXFD && k3fds[fd].used && k3fds[fd].writable) {
     k3fd_t *e = &k3fds[fd];
     if (k3_should_fail("write", e->path)) {
+      if (k3fail_partial == 2 && n > 1) {
+        /* a legal SHORT write: half of the bytes are written and that count is returned (no error) */
+        size_t h = n / 2;
+        r = __real_write(fd, buf, h);
+        if (r > 0) { if (e->shadow >= 0) __real_write(e->shadow, buf, r); fprintf(k3tr, "W %d %ld %s short\n", e->id, (long)r, e->path); fflush(k3tr); }
+        return r;
+      }
       if (k3fail_partial && n > 1) {
         size_t h = n / 2; int se = errno;
         r = __real_write(fd, buf, h);
